@@ -846,6 +846,8 @@ def _(c):
 def _(c):
     import operator
     b = partner(c, broadcast_ok=False); guard_sum(c.a, b)
+    if c.r.random() < 0.3:
+        return tn.reduce([c.a], operator.add, eps=c.r.choice([0, 1e-6]))       # a sequence of one
     return tn.reduce([c.a, b, c.a], operator.add, eps=c.r.choice([0, 1e-6]))
 
 
@@ -1371,6 +1373,8 @@ class Prop:
                     ar.root = root
             rec["args_changed"] = ach
             if cls == "new":
+                if isinstance(out, tn.Tensor) and any(out is t for t in pool):
+                    rec["returned_operand"] = True      # not a new tensor: any in-place method on it changes the operand
                 keep = None
                 if isinstance(out, tn.Tensor) and not getattr(out, "batch", False) and not any(out is t for t in pool) \
                         and len(pool) < CAP_SLOTS:
@@ -1437,6 +1441,8 @@ class Prop:
                         what, ch["slot"], role, ",".join(kinds))
             for ac in st["args_changed"]:
                 return False, "%s: argument array '%s' was modified (%s)" % (what, ac["label"], ac["what"])
+            if st.get("returned_operand"):
+                return False, "%s: the operation returned one of the live tensor objects itself instead of a new tensor" % what
         return True, ""
 
     def nontrivial(self, case, res):
